@@ -59,6 +59,16 @@ fn err_name(e: &Error) -> String {
 pub fn check_constructors(c: &mut Ctx, v: u64) {
     c.eval();
     c.distinct(&format!("ctor/{}", v));
+    if v == 0 {
+        // the named zero constructors
+        let (cz, mz, az) = (CustomerBalance::zero(), MerchantBalance::zero(), PaymentAmount::zero());
+        if cz.into_inner() != 0 || mz.into_inner() != 0 || az.to_i64() != 0 || !cz.is_zero() || !mz.is_zero() {
+            c.violation("C17 wrong-result api=zero() class=0", json!({"customer": cz.into_inner().to_string(), "merchant": mz.into_inner().to_string(), "amount": az.to_i64().to_string()}));
+        }
+        if CustomerBalance::try_new(0).map(|b| enc(&b) != enc(&cz)).unwrap_or(true) {
+            c.violation("C17 wrong-result api=zero()-vs-try_new(0) class=0", json!({}));
+        }
+    }
     let expect_ok = v <= MAXB;
     // balances
     match guard(|| (CustomerBalance::try_new(v), MerchantBalance::try_new(v))) {
